@@ -45,8 +45,25 @@ pub fn probe(s: &Scheme, name: &str) -> Value {
     json!({"name": name, "field": field, "func": func, "asvalue": asvalue, "ascall": ascall})
 }
 
+fn list_lookup(s: &Scheme) -> Vec<Value> {
+    let pool = [Ty::Int, Ty::Bytes, Ty::Ip, Ty::Bool, Ty::arr(Ty::Int)];
+    pool.iter()
+        .map(|t| {
+            let r = std::panic::catch_unwind(std::panic::AssertUnwindSafe(|| {
+                s.get_list(&t.to_engine()).map(|l| Ty::from_engine(wirefilter::GetType::get_type(&l)))
+            }));
+            match r {
+                Ok(Some(got)) => json!({"ty": t, "found": true, "got": got}),
+                Ok(None) => json!({"ty": t, "found": false, "got": t}),
+                Err(_) => json!({"ty": t, "found": true, "got": {"k": "Panic"}}),
+            }
+        })
+        .collect()
+}
+
 pub fn summary(s: &Scheme) -> Value {
     json!({
+        "listlookup": list_lookup(s),
         "nfields": s.field_count(), "nfuncs": s.function_count(), "nlists": s.list_count(),
         "order": s.fields().map(|f| f.name().to_string()).collect::<Vec<_>>(),
         "funcorder": s.functions().map(|f| f.name().to_string()).collect::<Vec<_>>(),
